@@ -1830,4 +1830,60 @@ theorem sibling_independent (st : CState) (p : Nat) (extra defs : CteEnv) (n : S
   simp only [cresolve, List.nil_append, henv, List.length_set, List.length_append, List.length_cons, List.length_nil]
   simp
 
+/-! ## the schema's name memo -/
+
+/-- every entry answers correctly for EVERY call that maps to its key -/
+def MemoOk (hasRole : Bool) (f : CaseFns) (ts : Bool) (s : Strategy) (memo : NameMemo) : Prop :=
+  ∀ e ∈ memo, ∀ k : NKey, memoKey hasRole k = e.1 → e.2 = normName f ts s k
+
+theorem normName_role_insensitive (f : CaseFns) (s : Strategy) (n : String) (q a b : Bool) :
+    normName f false s ⟨n, q, a⟩ = normName f false s ⟨n, q, b⟩ := by
+  simp [normName, normalizeT]
+
+theorem sameKey_sameNorm (hasRole : Bool) (f : CaseFns) (ts : Bool) (s : Strategy)
+    (h : hasRole = true ∨ ts = false) (a b : NKey) (hk : memoKey hasRole a = memoKey hasRole b) :
+    normName f ts s a = normName f ts s b := by
+  obtain ⟨an, aq, at_⟩ := a
+  obtain ⟨bn, bq, bt⟩ := b
+  simp only [memoKey, Prod.mk.injEq] at hk
+  obtain ⟨rfl, rfl, hr⟩ := hk
+  rcases h with h | h
+  · subst h
+    simp at hr
+    subst hr
+    rfl
+  · subst h
+    exact normName_role_insensitive f s an aq at_ bt
+
+theorem lookup_mem {α β} [BEq α] [LawfulBEq α] (l : List (α × β)) (k : α) (v : β) (h : l.lookup k = some v) :
+    (k, v) ∈ l := by
+  induction l with
+  | nil => simp [List.lookup] at h
+  | cons x xs ih =>
+    obtain ⟨a, b⟩ := x
+    simp only [List.lookup] at h
+    by_cases hk : k == a
+    · simp [hk] at h
+      have : k = a := by simpa using hk
+      subst this; subst h
+      simp
+    · simp [hk] at h
+      exact List.mem_cons_of_mem _ (ih h)
+
+theorem normMemo_sound (hasRole : Bool) (f : CaseFns) (ts : Bool) (s : Strategy) (h : hasRole = true ∨ ts = false)
+    (memo : NameMemo) (hm : MemoOk hasRole f ts s memo) (k : NKey) :
+    (normMemo hasRole f ts s memo k).1 = normName f ts s k ∧ MemoOk hasRole f ts s (normMemo hasRole f ts s memo k).2 := by
+  unfold normMemo
+  cases hl : memo.lookup (memoKey hasRole k) with
+  | some v =>
+    simp only
+    exact ⟨hm _ (lookup_mem memo _ v hl) k rfl, hm⟩
+  | none =>
+    simp only [true_and]
+    intro e he k' hk'
+    simp only [List.mem_cons] at he
+    rcases he with rfl | he
+    · exact sameKey_sameNorm hasRole f ts s h k k' (by simpa using hk'.symm)
+    · exact hm e he k' hk'
+
 end SqlglotModel.Qualify
